@@ -115,6 +115,7 @@ def execute(trace):
         except lc.BudgetExceeded:
             res.violate('I1-termination', 'step-budget-exceeded', budget=sb.limit, op=tag,
                         triples=[list(map(str, t)) for t in g.triples], markers=lc.canon_markers(g), top=top)
+            state['dead'] = True     # the history ends here: any later encode of this state would not return either
             return False
         except Exception as e:
             res.violate('I4-totality', 'other-exception:' + type(e).__name__, error=digest.canon_exc(e), op=tag,
@@ -163,15 +164,20 @@ def execute(trace):
 
     check('start')
     for i, op in enumerate(trace['ops']):
+        if state.get('dead'):
+            break
         g = state['g']
         name = op['op']
         if name == 'restart':
             if not g.triples:
                 continue      # '()' would come back with the variable None
             try:
-                state['g'] = penman.decode(penman.encode(g, model=model), model=model)
+                with lc.StepBudget(budget(g)):
+                    state['g'] = penman.decode(penman.encode(g, model=model), model=model)
                 faults = []
                 res.hit('probe.restart')
+            except lc.BudgetExceeded:
+                break
             except Exception:
                 continue
             check(f'{i}:restart')
